@@ -292,6 +292,13 @@ func (x *Exec) jump(st *State, to *ssa.BasicBlock) {
 		x.finish(st, "stop")
 		return
 	}
+	if len(st.frames) == 1 && st.curLoop != 0 {
+		for _, li := range x.loops {
+			if li.ord == st.curLoop && !li.blocks[to] {
+				st.curLoop = x.enclosingLoop(to)
+			}
+		}
+	}
 	if li, ok := x.loops[to]; ok && fr.fn == x.fn && len(st.frames) == 1 {
 		if li.blocks[from] {
 			// back edge
@@ -597,7 +604,9 @@ func (st *State) addEvent(e Event) {
 		h[k] = v
 	}
 	e.Heap = h
+	e.Loop = st.curLoop
 	st.events = append(st.events, e)
+	st.x.countEvent(st, e)
 }
 
 func (x *Exec) fieldSite(base ssa.Value, field int) string {
@@ -1075,5 +1084,49 @@ func (x *Exec) computeLoops() {
 	sort.Slice(hs, func(i, j int) bool { return hs[i].Index < hs[j].Index })
 	for i, h := range hs {
 		x.loops[h].ord = i + 1
+	}
+}
+
+// enclosingLoop returns the ordinal of the innermost loop containing block b (0 if none).
+func (x *Exec) enclosingLoop(b *ssa.BasicBlock) int {
+	best, size := 0, 1<<30
+	for _, li := range x.loops {
+		if li.blocks[b] && len(li.blocks) < size {
+			best, size = li.ord, len(li.blocks)
+		}
+	}
+	return best
+}
+
+// countEvent bumps content-keyed ghost counters for abstract call events carrying a message:
+// ghost.ev:<kind>:<MsgType>:<Field>[value] for every uint32 field of the message.
+func (x *Exec) countEvent(st *State, e Event) {
+	if !x.eng.eventKinds[e.Kind] {
+		return
+	}
+	for _, a := range e.Args {
+		if a.Dyn == nil || a.Inner == nil {
+			continue
+		}
+		pt, ok := types.Unalias(a.Dyn).Underlying().(*types.Pointer)
+		if !ok {
+			continue
+		}
+		stt, ok := pt.Elem().Underlying().(*types.Struct)
+		if !ok {
+			continue
+		}
+		for i := 0; i < stt.NumFields(); i++ {
+			f := stt.Field(i)
+			b, isB := types.Unalias(f.Type()).Underlying().(*types.Basic)
+			if !isB || b.Kind() != types.Uint32 {
+				continue
+			}
+			fp := Val{Typ: types.NewPointer(f.Type()), C: a.Inner.C, Prefix: a.Inner.prefix() + "." + f.Name()}
+			v := st.load(fp).T()
+			name := "ghost.ev:" + e.Kind + ":" + typeName(pt.Elem()) + ":" + f.Name()
+			arr := st.heapGet(name, ArrSort(SInt))
+			st.heapSetAt(name, Store(arr, v, Add(Select(arr, v), IntLit(1))), nil)
+		}
 	}
 }
